@@ -278,9 +278,9 @@ def gen_replay(path):
     runner = GenRunner(S, workers=1)
     jobs = []
     if 'value' in inp and 'cls' in inp:
-        jobs.append(dict(op='ser', cls=inp['cls'], value=inp['value'], san=bool(inp.get('san', False)), then_deser=True, mutants=0, fail_at=inp.get('fail_at')))
+        jobs.append(dict(op='ser', cls=inp['cls'], value=inp['value'], san=bool(inp.get('san', False)), then_deser=True, mutants=0, fail_at=inp.get('fail_at'), fail_base=inp.get('fail_base')))
     if 'data' in inp and 'cls' in inp:
-        jobs.append(dict(op='deser', cls=inp['cls'], data=inp['data'], chunked=bool(inp.get('chunked', False)), fail_at=inp.get('fail_at')))
+        jobs.append(dict(op='deser', cls=inp['cls'], data=inp['data'], chunked=bool(inp.get('chunked', False)), fail_at=inp.get('fail_at'), fail_base=inp.get('fail_base')))
     res = runner.run([dict(id=0, files=inp['xml'], jobs=jobs)])[0]
     print("generator:", "accepted" if res.get('accepted') else f"rejected ({res.get('error')})", res.get('import_error', ''))
     still = False
